@@ -32,7 +32,7 @@ def f32(x):
 # strategies
 
 def fl(lo, hi):
-    return st.floats(min_value=lo, max_value=hi, allow_nan=False, allow_infinity=False, width=32)
+    return st.floats(min_value=f32(lo), max_value=f32(hi), allow_nan=False, allow_infinity=False, width=32)
 
 
 angle = st.one_of(st.none(), st.just(0.0), fl(-3.2, 3.2), fl(6.3, 20.0))
@@ -117,10 +117,35 @@ def sec_constraints(draw):
 def tracker_ops(draw, visual, batch, nobj, scenes):
     # well separated objects: unambiguous (tie-free) associations
     ops = []
-    nsteps = draw(st.integers(1, 10))
+    nsteps = draw(st.integers(1, 14))
     t = {s: 0 for s in scenes}
+    probe = draw(st.integers(0, 2)) == 0
+    if probe:
+        # expiry probe: feed one frame, let exactly n epochs pass, then ask / continue
+        def frame(tt):
+            dets = []
+            for o in range(nobj):
+                d = {"box": {"ctor": "new_with_confidence", "xc": f32(100.0 + 250.0 * o + 2.0 * tt), "yc": f32(100.0 + 40.0 * (o % 2)), "angle": None, "aspect": f32(0.8 + 0.1 * o), "height": f32(50.0 + o), "confidence": 1.0}, "custom": o}
+                if visual:
+                    d["feature"] = [f32(math.cos(o * 1.3 + k)) for k in range(4)]
+                    d["quality"] = 0.9
+                dets.append(d)
+            return dets
+        n = draw(st.integers(1, 7))
+        k = draw(st.integers(1, 4))
+        for tt in range(1, k + 1):
+            ops.append({"op": "predict", "scene": 0, "default_scene": False, "dets": frame(3 * tt)})
+        ops.append({"op": "skip", "scene": 0, "n": n, "default_scene": False})
+        tail = draw(st.sampled_from(["wasted", "predict", "idle"]))
+        if tail == "predict":
+            ops.append({"op": "predict", "scene": 0, "default_scene": False, "dets": frame(3 * k + 1)})
+        elif tail == "idle":
+            ops.append({"op": "idle", "scene": 0, "default_scene": False})
+        ops.append({"op": "wasted"})
+        ops.append({"op": "epoch", "scene": 0, "default_scene": False})
+        return ops
     for _ in range(nsteps):
-        kind = draw(st.sampled_from(["predict"] * 6 + ["skip", "epoch", "wasted", "idle", "clear_wasted", "stats"]))
+        kind = draw(st.sampled_from(["predict"] * 6 + ["skip", "skip", "epoch", "wasted", "wasted", "idle", "clear_wasted", "stats"]))
         scene = draw(st.sampled_from(scenes))
         if kind == "predict":
             t[scene] += 1
@@ -138,7 +163,8 @@ def tracker_ops(draw, visual, batch, nobj, scenes):
                 dets.append(d)
             ops.append({"op": "predict", "scene": scene, "default_scene": (scene == 0 and not batch and draw(st.booleans())), "dets": dets})
         elif kind == "skip":
-            ops.append({"op": "skip", "scene": scene, "n": draw(st.integers(1, 4)), "default_scene": (scene == 0 and draw(st.booleans()))})
+            # expiry boundaries: gaps around the documented default idle limits (2 and 5)
+            ops.append({"op": "skip", "scene": scene, "n": draw(st.integers(1, 7)), "default_scene": (scene == 0 and draw(st.booleans()))})
         elif kind == "epoch":
             ops.append({"op": "epoch", "scene": scene, "default_scene": (scene == 0 and draw(st.booleans()))})
         elif kind == "idle":
